@@ -7,12 +7,16 @@ VERIF = os.path.dirname(os.path.dirname(os.path.abspath(__file__)))
 ENGINES = [
     dict(name="periph", path="engines/periph", serves_properties=["C13", "C15", "C16"],
          kind_free_text="explicit-state BFS / exhaustive configuration enumeration over the real Timer, Btdmp, Dma+Ahbm objects with lock-step reference models"),
-    dict(name="sys", path="engines/sys", serves_properties=["C14"],
+    dict(name="sys", path="engines/sys", serves_properties=["C06", "C14"],
          kind_free_text="explicit-state BFS over the whole Teakra facade (host API + DSP-side MMIO) with snapshot/restore of the plain state and lock-step reference models"),
 ]
 
 # id -> (engine, technique, level text, level note, design ref)
 CLAIMED = {
+    "C06": ("sys", "exhaustive enumeration of every partition of the cycle budget (all 2-partitions, 3-partitions, host events at every boundary) for every program of a generated family, compared with the n x Run(1) trace of the same program on the real machine",
+            "For each of ~30k generated programs (idle/busy main lines, six handler kinds, timer modes/start values/routing, second timer, audio periods and fills, mailbox/semaphore/software-IRQ events at every cycle position) the real machine is run once per slicing and its complete observable state after every slice (registers incl. hidden banks, latches, timers, audio port, ICU, APBP, stack, ordered callback log) is compared with the single-step trace. The set of slicings is enumerated completely for 2 (and 3) slices, which is where an idle fast-forward bug has to show.",
+            "Trusted: snapshot/restore of the plain machine state (MMIO cell backing words are never written with unmodelled bits), g++. Programs are limited to the generated family and n<=48 cycles; the idle flag internal to a Run call is not compared.",
+            "DESIGN.md section 4, C06"),
     "C13": ("periph", "exhaustive enumeration of a bounded DMA configuration space on the real Dma/Ahbm, nested-loop reference model stepped per configuration, exact write log from the memory observer",
             "Every configuration of the declared size/step/mode/space/channel/overlap product is executed on the real code and compared element by element (ordered DSP write log, ordered external access logs, interrupt count) with a 40-line reference; this decides the property for the whole bounded configuration space, which is what a strided-copy bug needs to show up (sizes 0..3 reach every branch of the three nested counters).",
             "Trusted: the reference nested loop, the memory-observer hook, g++. Addresses are kept inside the data space (out-of-range strides are C18's subject); external side restricted to naturally aligned units and whole bursts as the statement says.",
